@@ -25,7 +25,7 @@ EXPLANATION = 'C04: framing obligations on the real BGP protocol object with sym
 BOUNDS = 'streams of <= 3 frames / <= 80 octets; length field 0..65535 and type 0..255 symbolic; cuts enumerated'
 ASSUMPTIONS = ['Twisted delivers no data after transport.loseConnection() (stopReading) - modelled',
                'the reaction to a well-framed message of known type is compared only for reference-encoded bodies']
-BUDGET = {'quick': 300, 'thorough': 1500}
+BUDGET = {'quick': 300, 'thorough': 3000}
 
 KNOWN_TYPES = (1, 2, 3, 4, 5, 128)
 
